@@ -784,6 +784,12 @@ fn verif_actor_step_is_one_atomic_handler_step() {
         let m = model(if ordered { Network::new_ordered(init) } else { Network::new_unordered_nonduplicating(init) });
         let s0 = m.init_states().pop().unwrap();
         let before = format!("{:?}", s0);
+        // ---- start-up: on_start once per actor, its commands applied for that actor
+        {
+            let t0: Vec<u8> = { let mut v: Vec<u8> = s0.timers_set[0].iter().copied().collect(); v.sort(); v };
+            if t0 != vec![1, 2] || s0.timers_set[1].iter().count() != 0 || !s0.random_choices[0].map.contains_key("k") || !s0.random_choices[0].map.contains_key("j") || !s0.random_choices[1].map.is_empty()
+                || s0.actor_states.len() != 2 || s0.network.len() != 2 || !s0.history.is_empty() { bad("start-up: each actor's on_start commands are applied to that actor, nothing else changes"); }
+        }
         // ---- Deliver 3: one handler call; state replaced; sends in order; timers as commanded; hooks in/out/out
         CALLS.store(0, Ordering::SeqCst);
         let s1 = m.next_state(&s0, ActorModelAction::Deliver { src: a1, dst: a0, msg: 3 }).unwrap_or_else(|| bad("a delivery that changes things yields a transition"));
